@@ -51,8 +51,74 @@ func (c *c20) Cases(tier string, seed int64) []core.Case {
 				}
 			}
 		}
+		for _, cap := range []string{"255+1", "250+6", "157+99", "3+99", "1+1"} {
+			cs = append(cs, core.MkCase(fmt.Sprintf("par1-capacity-%s-%d", cap, k), c20Params{r.Int63(), "par1", "capacity:" + cap, "set"}))
+		}
 	}
 	return cs
+}
+
+// runCapacity: PAR1 sets filled to what the format allows (files + volumes =
+// 256, or 99 volumes), created by the binary, with exactly as many files lost
+// as there are volumes, and with one more.
+func (c *c20) runCapacity(r *core.R, p c20Params, rng *rand.Rand) {
+	var nf, nv int
+	fmt.Sscanf(p.State, "capacity:%d+%d", &nf, &nv)
+	root, err := os.MkdirTemp("", "c20cap-")
+	if err != nil {
+		r.Inconclusive("tempdir: %v", err)
+		return
+	}
+	defer os.RemoveAll(root)
+	setDir := filepath.Join(root, "set")
+	os.MkdirAll(setDir, 0755)
+	var names []string
+	data := map[string][]byte{}
+	for i := 0; i < nf; i++ {
+		n := fmt.Sprintf("d%03d.bin", i)
+		names = append(names, n)
+		data[n] = scen.GenData(rng, "random", 1+rng.Intn(40), 16)
+		os.WriteFile(filepath.Join(setDir, n), data[n], 0644)
+	}
+	check := func(what string, got cliRun, want string) {
+		r.Count("invocations", 1)
+		if strings.Contains(got.out, "panic: ") || strings.Contains(got.out, "goroutine 1 [") || got.signal != "" {
+			r.Violate("process-crashed|par1|"+what, "%s [%d files + %d volumes]: crashed (status %d %s): %s", what, nf, nv, got.exit, got.signal, tailStr(got.out, 600))
+		}
+		if fmt.Sprint(got.exit) != want {
+			r.Violate(fmt.Sprintf("exit-status|par1|%s|want=%s|got=%d", what, want, got.exit), "%s [%d files + %d volumes]: exit status %d, expected %s; output tail: %s", what, nf, nv, got.exit, want, tailStr(got.out, 400))
+		}
+		r.Key("par1|capacity|%d+%d|%s", nf, nv, what)
+		r.SetAdd("exit_statuses_seen", fmt.Sprint(got.exit))
+	}
+	check("create-full-set", runPar(setDir, append([]string{"c", "-c", fmt.Sprint(nv), "full.par"}, names...)...), "0")
+	check("verify-full-set", runPar(setDir, "v", "full.par"), "0")
+	lose := func(k int) {
+		for _, i := range rng.Perm(nf)[:k] {
+			os.Remove(filepath.Join(setDir, names[i]))
+		}
+	}
+	lose(minInt(nv, nf))
+	check("verify-as-many-lost-as-volumes", runPar(setDir, "v", "full.par"), "1")
+	rr := runPar(setDir, "r", "full.par")
+	check("repair-as-many-lost-as-volumes", rr, "0")
+	if rr.exit == 0 {
+		for _, n := range names {
+			if b, err := os.ReadFile(filepath.Join(setDir, n)); err != nil || string(b) != string(data[n]) {
+				r.Violate("exit-0-contradicted-by-disk|repair", "repair of a full PAR1 set (%d+%d) exited 0 but %s is not the original", nf, nv, n)
+				break
+			}
+		}
+	}
+	if nf > nv {
+		for _, n := range names {
+			os.WriteFile(filepath.Join(setDir, n), data[n], 0644)
+		}
+		lose(nv + 1)
+		check("verify-one-more-lost-than-volumes", runPar(setDir, "v", "full.par"), "2")
+		check("repair-one-more-lost-than-volumes", runPar(setDir, "r", "full.par"), "2")
+	}
+	r.Sample(map[string]interface{}{"format": "par1", "state": p.State, "files": nf, "volumes": nv})
 }
 
 type cliRun struct {
@@ -92,6 +158,10 @@ func (c *c20) Run(cs core.Case) core.Result {
 		return r.Done()
 	}
 	rng := rand.New(rand.NewSource(p.Seed))
+	if strings.HasPrefix(p.State, "capacity:") {
+		c.runCapacity(r, p, rng)
+		return r.Done()
+	}
 	w, err := newC18World(p.Fmt, p.Seed, "intact", false)
 	if w != nil {
 		defer w.close()
